@@ -34,12 +34,12 @@ def ref_gain(nl, a):
 
 @st.composite
 def big_shape(draw, min_rank=2):
-    r = draw(st.integers(min_rank, 4))
+    r = draw(st.sampled_from([k for k in (1, 2, 2, 3, 4, 5, 5, 6) if k >= min_rank]))
     if r == 1:
         return [draw(st.sampled_from([4096, 10000, 20000]))]
     a = draw(st.sampled_from([8, 16, 32, 64, 100, 128]))
     b = draw(st.sampled_from([8, 16, 32, 64, 50, 256]))
-    rest = [draw(st.sampled_from([1, 2, 3, 5])) for _ in range(r - 2)]
+    rest = [draw(st.sampled_from([1, 2, 3, 5] if r <= 4 else [1, 2, 3])) for _ in range(r - 2)]
     shp = [a, b] + rest
     n = int(np.prod(shp))
     while n < 4096:
@@ -79,8 +79,8 @@ def init_cases(draw):
         c["default_gain"] = c["gain"] == 1.0 and draw(st.booleans())
     elif name.startswith("kaiming"):
         c["mode"] = draw(st.sampled_from(["fan_in", "fan_in", "fan_out"]))
-        c["nl"] = draw(st.sampled_from(["leaky_relu", "leaky_relu", "relu", "tanh", "linear", "sigmoid", "selu", "conv2d", "conv1d"]))
-        c["a"] = draw(st.sampled_from([0, 0, 0.01, 0.2, 1.0, 2.0]))
+        c["nl"] = draw(st.sampled_from(["leaky_relu", "leaky_relu", "leaky_relu", "relu", "tanh", "linear", "sigmoid", "selu", "conv2d", "conv1d"]))
+        c["a"] = draw(st.sampled_from([0, 0.01, 0.5, 1.0, 2.0, -1.0, 3.0]))
         c["defaults"] = draw(st.integers(0, 3)) == 0
     return c
 
